@@ -35,6 +35,8 @@ def decide(out, obs, vals, st):
     true_cells = 0
     samples = []
     for o in vlib.read_ndjson(obs):
+        if o.get("outcome") == "notrun":
+            continue
         if o.get("outcome") in ("hang", "abort", "harness_panic"):
             out.fail("NEW", "worker %s in the comparison matrix" % o.get("outcome"), {"rows": o.get("input_case", {}).get("rows")})
             continue
